@@ -111,6 +111,17 @@ def check(run, ctx):
     R3 = run.rule("R3", "is_in_test = self.is_inside_test(<the call node>) via rust_context.is_inside_test in all three analyzers and the Rust magic-number path", floor=5)
     base = repo.func("src.analyzers.rust_base.RustBaseAnalyzer.is_inside_test")
     (run.ok(R3, "RustBaseAnalyzer.is_inside_test", "delegates to rust_context.is_inside_test(node)") if any(isinstance(n, ast.Return) and isinstance(n.value, ast.Call) and ast.unparse(n.value.func) == "rust_context.is_inside_test" and n.value.args and isinstance(n.value.args[0], ast.Name) and n.value.args[0].id == base.node.args.args[1].arg for n in ast.walk(base.node)) else run.finding(R3, "RustBaseAnalyzer.is_inside_test", "delegate", "no longer delegates to the shared rust_context.is_inside_test", base.loc))
+    it = repo.func("src.analyzers.rust_context.is_inside_test")
+    loop = next((n for n in ast.walk(it.node) if isinstance(n, ast.While)), None)
+    run.require(loop is not None, "rust_context.is_inside_test: ancestor loop not found")
+    to_root = "is not None" in ast.unparse(loop.test) or ast.unparse(loop.test) in ("current", "node")
+    early = [n for n in ast.walk(loop) if isinstance(n, ast.Break) or (isinstance(n, ast.Return) and not (isinstance(n.value, ast.Constant) and n.value.value is True))]
+    steps = [n for n in ast.walk(loop) if isinstance(n, ast.Assign) and isinstance(n.value, ast.Attribute) and n.value.attr == "parent"]
+    if to_root and not early and steps:
+        run.ok(R3, "is_inside_test ancestor walk", "walks every ancestor up to the root; only a test context ends it early")
+    else:
+        run.finding(R3, "rust_context.is_inside_test", "ancestor-walk-cut", f"the walk over enclosing items stops early ({norm(early[0]) if early else norm(loop.test)}): a call in a plain module nested inside a #[cfg(test)] module is no longer recognised as test code", it.loc)
+
     R6 = run.rule("R6", "call records take line = node.start_point[0] + 1, column = node.start_point[1] and is_in_test from the same node", floor=3)
     for pkg, rec in (("unwrap_abuse", "UnwrapCall"), ("clone_abuse", "CloneCall"), ("blocking_async", "BlockingCall")):
         m = repo.mod(f"src.linters.{pkg}.rust_analyzer")
